@@ -347,7 +347,13 @@ class ADWIN(StreamingDetector):
             n_curr + self._window_size
         )
         curr_bucket_row.remove_buckets(1)
-        if curr_bucket_row.bucket_count == 0:
+        # Drop the emptied row, and any empty rows below it (with max_buckets=1,
+        # compression leaves rows empty), so that the tail always holds the
+        # oldest bucket.
+        while (
+            self._bucket_row_list.tail is not None
+            and self._bucket_row_list.tail.bucket_count == 0
+        ):
             self._bucket_row_list.remove_tail()
         return n_curr
 
